@@ -350,6 +350,12 @@ def prefix_rules(C, P):
             # the Some edge must pass is_empty and starts_with('/') before any map insert / content write / format use
             sinks = [o['pos'] for o in E.ident_ops(b) + E.reforig_ops(b) if E.is_mutating(o)] + [o['pos'] for o in E.content_ops(b)]
             sinks = [s for s in sinks if s in b.reach_from(pos)]
+            encl = P.bodies.get(getattr(b, 'enclosing', None)) if b.kind == 'Closure' else None
+            while encl is not None and encl.kind == 'Closure':
+                encl = P.bodies.get(getattr(encl, 'enclosing', None))
+            encl_maintains = encl is not None and any(E.is_mutating(o) for x in P.with_closures(encl) for o in E.ident_ops(x) + E.reforig_ops(x))
+            if b.kind == 'Closure' and not sinks and not encl_maintains:
+                continue        # a prefix stripped in a closure of a function that touches neither index: not a re-key
             if b.kind == 'Closure' and not sinks:
                 # the test sits in a closure of an iterator chain (`keys().filter_map(|k| k.strip_prefix(old).filter(boundary).map(..))`):
                 # what leaves the closure as Some(..) / true is what gets re-keyed - the closure's successful return is the sink
